@@ -61,6 +61,8 @@ def run(ctx):
         for gi, (r0, r1) in enumerate(zip(base_rows, rows)):
             for c0, c1 in zip(r0[1], r1[1]):
                 evals += 1
+                if c0[3].startswith("slow:") or c1[3].startswith("slow:"):
+                    continue   # no answer within the CPU budget in one of the processes (C12 / F14), not comparable
                 if canon(c0[3]) != canon(c1[3]) and rep < 3:
                     found = True
                     rep += 1
